@@ -31,6 +31,14 @@ Proof. reflexivity. Qed.
 Theorem desc_from_dict_frame_ok : gen_from_dict_frame = ["action_type = ActionType.from_string(data_dict['action_type'])"; "params = {}"; "return cls(action_type=action_type, parameters=params)"].
 Proof. reflexivity. Qed.
 
+(* ActionType.from_string removes the enum prefix only where it LEADS the text (Model/Codec.v strip_prefix) and looks the rest up by name *)
+Theorem desc_atype_from_string_ok : gen_atype_from_string = ["if name.startswith('ActionType.'):
+    name = name[len('ActionType.'):]"; "try:
+    return cls[name]
+except KeyError:
+    raise ValueError(f'Invalid ActionType: {name}')"].
+Proof. reflexivity. Qed.
+
 Theorem desc_action_from_json_ok : gen_action_from_json = ["data_dict = json.loads(json_string)"; "return cls.from_dict(data_dict)"].
 Proof. reflexivity. Qed.
 
